@@ -175,6 +175,27 @@ def run(ctx):
         n = rnd.choice([1, 1, 2, 3])
         rnds.append(["".join(rnd.choice(SRC_ALPHABET) for _ in range(rnd.randint(1, 24))) + "\n" for _ in range(n)])
     asmcheck.run_text_suite(ctx, "random-lines", rnds)
+    # very long tokens (labels, mnemonics, operands of 24-200 characters) with a stray character at the end / in the middle: the time to reject a line
+    # must not grow with the length of a name (a pattern that backtracks exponentially hangs the assembler)
+    longs = []
+    for _ in range(4000 if thorough else 600):
+        n = rnd.choice([24, 28, 32, 40, 64, 100, 200])
+        tok = "".join(rnd.choice("ABCDEFGHIJKLMNOPQRSTUVWXYZ0123456789" if rnd.random() < 0.7 else "AB12@_") for _ in range(n))
+        stray = rnd.choice(["!", ".", "?", ":", "&", "^", "=", "(", ")", "_", "@", "", "", "+", "-1", "*", ",X", ",PCR", "]", "+!"])
+        pre = rnd.choice(["", "#", "<", ">", "[", "$", "%", "'"])
+        where = rnd.choice(["operand", "operand", "operand", "label", "mnemonic", "fcb", "equ"])
+        if where == "operand":
+            line = " %s %s%s%s\n" % (rnd.choice(["LDA", "LDX", "JMP", "BRA", "LBSR", "LEAX", "STA", "FDB", "RMB", "ORG"]), pre, tok, stray)
+        elif where == "label":
+            line = "%s%s NOP \n" % (tok, stray)
+        elif where == "mnemonic":
+            line = " %s%s #1\n" % (tok, stray)
+        elif where == "fcb":
+            line = " FCB 1,%s%s,2\n" % (tok, stray)
+        else:
+            line = "K EQU %s%s%s\n" % (pre, tok, stray)
+        longs.append([line] if rnd.random() < 0.7 else [" ORG $1000\n", line, " RTS \n"])
+    asmcheck.run_text_suite(ctx, "long-tokens", longs)
     # INCLUDE of a missing file and inclusion cycles of length 1-3 (the other data-dependent recursion)
     from harness.props import c19
     import multiprocessing as mp
